@@ -277,6 +277,8 @@ def project_cell(cell, servers_in, buckets_in, blevel, bparent, allocs_in, clock
             vu=relf(bk.valid_until),
             ctr={k: int(n) for k, n in bk.affinity_counters.items() if n != 0})
     alloc_name = {id(al): n for n, al in allocs_in.items()}
+    # arrival stamps are only ever compared: log their dense rank (TLC ints are 32 bit)
+    ranks = {g: i + 1 for i, g in enumerate(sorted({int(x.global_order) for x in cell.apps.values()}))}
     apps = {}
     for a, app in cell.apps.items():
         al = app.allocation
@@ -292,7 +294,7 @@ def project_cell(cell, servers_in, buckets_in, blevel, bparent, allocs_in, clock
             once=bool(app.schedule_once), evicted=bool(app.evicted), renew=bool(app.renew),
             unschedule=bool(app.unschedule), blacklisted=bool(app.blacklisted),
             traits=traitsf(app.traits), own=traitsf(app._traits),
-            order=int(app.global_order) - order0)
+            order=ranks[int(app.global_order)])
     groups = {g: dict(count=int(ig.count), available=sorted(int(x) for x in ig.available))
               for g, ig in cell.identity_groups.items()}
     allocs = {}
